@@ -7,7 +7,7 @@ import ast
 from ..core import Ctx, RuleResult, finding, short, walk_no_nested
 from ..model import AnalysisError, norm
 from ..mutants import Mut
-from ..rules import accum, offstep, exc, prog
+from ..rules import accum, loopfresh, offstep, exc, prog
 from ..rules.exc import ExcEngine
 from ..rules.util import callee_name, cfg_of, lin_str, linear, nodes_where
 from . import c01, c11
@@ -239,12 +239,14 @@ def run(ctx: Ctx):
         rule_reopen(ctx),
         accum.run_accum(p, "C03.9", "C03", floor=3),
         rule_trim_width(ctx),
+        loopfresh.run_loopfresh(p, "C03.12", "C03", floor=6),
         offstep.run_offstep(p, "C03.10", [f.qualname for f in p.modules[TL].functions], floor=5),
     ]
 
 
 _T = "urwid/text_layout.py"
 MUTANTS = [
+    Mut("pad-right-carried-to-next-line", _T, "StandardTextLayout._calculate_trimmed_segments", "                trimmed = False\n                end_off = nl_pos\n                pad_right = 0\n", "                trimmed = False\n                end_off = nl_pos\n", "LOOPFRESH|text_layout.StandardTextLayout._calculate_trimmed_segments", also=[("        ellipsis_char = ellipsis_string.encode(encoding)\n\n        idx = 0\n", "        ellipsis_char = ellipsis_string.encode(encoding)\n\n        idx = 0\n        pad_right = 0\n")]),
     Mut("ellipsis-segment-one-column-short", _T, "StandardTextLayout._calculate_trimmed_segments", "screen_columns = width - ellipsis_width - pad_right", "screen_columns = width - 1 - pad_right", "PAIR|text_layout.StandardTextLayout._calculate_trimmed_segments"),
     Mut("ellipsis-segment-ignores-pad", _T, "StandardTextLayout._calculate_trimmed_segments", "screen_columns = width - ellipsis_width - pad_right", "screen_columns = width - ellipsis_width", "PAIR|text_layout.StandardTextLayout._calculate_trimmed_segments"),
     Mut("twin-ellipsis-segment-reordered", _T, "StandardTextLayout._calculate_trimmed_segments", "screen_columns = width - ellipsis_width - pad_right", "screen_columns = width - pad_right - ellipsis_width", twin=True),
